@@ -47,6 +47,34 @@ static inline void havoc_write_ghosts(void)
 #define WP_PRE_COND(self, s) ((self)->_sessions.has && (self)->_sessions.val == (s) && (s)->id == iora_sessmap_GKEY \
   && !(s)->closed && TLS_INV(s) && !TLS_HANDSHAKING(s) && STREAM(s, G_A) && G_written <= G_A && G_A < POS_BOUND && G_close_calls < 1000)
 
+/* postcondition clauses (shared by the unbounded harness and the bounded SEARCH harness) */
+static void wp_post(TcpEngine *self, Session *s, const Session *s0p, const TcpEngine *E0p, unsigned c0, unsigned sc0, unsigned ss0, size_t w0)
+{
+  Session s0 = *s0p; TcpEngine E0 = *E0p;
+  if (G_close_calls == c0)
+  {
+    __CPROVER_assert(!s->closed && self->_sessions.has, "S1 not closed: the session stays open and in the table");
+    __CPROVER_assert(STREAM(s, G_A), "S1 STREAM: the queue tiles [G_written, A) - nothing lost, duplicated or reordered");
+    __CPROVER_assert(s->wq.n == 0 || EPOLLOUT_ARMED(self, s), "S4 queue non-empty => EPOLLOUT registered for the session's fd (no lost re-arm)");
+    __CPROVER_assert(s->wq.n == 0 || s->wantWrite, "S4 queue non-empty => wantWrite stays set");
+    __CPROVER_assert(s->wq.n != 0 || (!s->wantWrite && G_ep_op == EPOLL_CTL_MOD && G_ep_fd == s->fd && (G_ep_events & EPOLLIN) != 0),
+                     "S4b queue drained => write wish withdrawn, interest mask refreshed with EPOLLIN");
+    __CPROVER_assert(s->wq.n != 0 || s->connectPending || (G_ep_events & EPOLLOUT) == 0, "S4c queue drained => EPOLLOUT no longer registered (no busy loop)");
+    __CPROVER_assert(SESSION_FRAME_OK(s, s0) && s->lastActivity == s0.lastActivity, "FR session fields outside the write state are unchanged");
+    if (s->wq.n > 0) { IORA_CANARY("writePending: still queued"); } else { IORA_CANARY("writePending: drained"); }
+  }
+  else
+  {
+    __CPROVER_assert(G_close_calls == c0 + 1 && G_close_sid == s0.id && !self->_sessions.has, "SC closed exactly once, reported for this session, erased from the table");
+    __CPROVER_assert(G_close_why == TransportError_Socket || G_close_why == TransportError_TLSIO, "SC close reason is an I/O error");
+    IORA_CANARY("writePending: closed");
+  }
+  __CPROVER_assert(G_written >= w0 && G_written <= G_A, "SP what reached the kernel is a prefix of the accepted stream");
+  __CPROVER_assert(self->_atomicStats.bytesOut - E0._atomicStats.bytesOut == G_written - w0, "SB bytesOut counts exactly the bytes handed over");
+  __CPROVER_assert(s0.tlsMode == TlsMode_None ? G_sslw_calls == ss0 : G_send_calls == sc0, "W6 plain TCP never calls SSL_write, TLS never calls send (no clear text)");
+  __CPROVER_assert(ENGINE_FRAME_OK(self, E0) && self->_atomicStats.backpressureCloses == E0._atomicStats.backpressureCloses, "FR engine state outside bytesOut/_sessions is unchanged");
+}
+
 void h_writePending(void)
 {
   TcpEngine E; TcpEngine *self = &E;
@@ -59,28 +87,7 @@ void h_writePending(void)
   unsigned c0 = G_close_calls, sc0 = G_send_calls, ss0 = G_sslw_calls; size_t w0 = G_written;
   TcpEngine_writePending(self, s);
   IORA_CANARY("h_writePending: returns");
-  if (G_close_calls == c0)
-  {
-    __CPROVER_assert(!s->closed && self->_sessions.has, "S1 not closed: the session stays open and in the table");
-    __CPROVER_assert(STREAM(s, G_A), "S1 STREAM: the queue tiles [G_written, A) - nothing lost, duplicated or reordered");
-    __CPROVER_assert(s->wq.n == 0 || EPOLLOUT_ARMED(self, s), "S4 queue non-empty => EPOLLOUT registered for the session's fd (no lost re-arm)");
-    __CPROVER_assert(s->wq.n == 0 || s->wantWrite, "S4 queue non-empty => wantWrite stays set");
-    __CPROVER_assert(s->wq.n != 0 || (!s->wantWrite && G_ep_op == EPOLL_CTL_MOD && G_ep_fd == s->fd && (G_ep_events & EPOLLIN) != 0),
-                     "S4b queue drained => write wish withdrawn, interest mask refreshed with EPOLLIN");
-    __CPROVER_assert(s->wq.n != 0 || s->connectPending || (G_ep_events & EPOLLOUT) == 0, "S4c queue drained => EPOLLOUT no longer registered (no busy loop)");
-    __CPROVER_assert(SESSION_FRAME_OK(s, s0) && s->lastActivity == s0.lastActivity, "FR session fields outside the write state are unchanged");
-    if (s->wq.n > 0) { IORA_CANARY("h_writePending: still queued"); } else { IORA_CANARY("h_writePending: drained"); }
-  }
-  else
-  {
-    __CPROVER_assert(G_close_calls == c0 + 1 && G_close_sid == s0.id && !self->_sessions.has, "SC closed exactly once, reported for this session, erased from the table");
-    __CPROVER_assert(G_close_why == TransportError_Socket || G_close_why == TransportError_TLSIO, "SC close reason is an I/O error");
-    IORA_CANARY("h_writePending: closed");
-  }
-  __CPROVER_assert(G_written >= w0 && G_written <= G_A, "SP what reached the kernel is a prefix of the accepted stream");
-  __CPROVER_assert(self->_atomicStats.bytesOut - E0._atomicStats.bytesOut == G_written - w0, "SB bytesOut counts exactly the bytes handed over");
-  __CPROVER_assert(s0.tlsMode == TlsMode_None ? G_sslw_calls == ss0 : G_send_calls == sc0, "W6 plain TCP never calls SSL_write, TLS never calls send (no clear text)");
-  __CPROVER_assert(ENGINE_FRAME_OK(self, E0) && self->_atomicStats.backpressureCloses == E0._atomicStats.backpressureCloses, "FR engine state outside bytesOut/_sessions is unchanged");
+  wp_post(self, s, &s0, &E0, c0, sc0, ss0, w0);
 }
 
 /* DFCC form */
@@ -107,19 +114,9 @@ void h_writePending_dfcc(void) { TcpEngine *self; Session *s; TcpEngine_writePen
 /* default policy (the property's scope): close on backpressure; the non-default drop-oldest policy only matters once the limit is exceeded */
 #define DS_NO_DROP(cfg, n0) ((cfg).closeOnBackpressure || (n0) < (cfg).maxWriteQueue)
 
-void h_doSend(void)
+static void ds_post(TcpEngine *self, Session *s, const Session *s0p, const TcpEngine *E0p, const SendReq *R0p, unsigned c0, unsigned sc0, unsigned ss0, unsigned m0, size_t w0)
 {
-  TcpEngine E; TcpEngine *self = &E;
-  Session *s = malloc(sizeof(Session)); __CPROVER_assume(s != NULL);
-  iora_canon_session(s); iora_canon_engine(self);
-  self->_sessions.val = s;       /* pointers are ASSIGNED: CBMC does not alias a nondeterministic pointer with an object it is merely assumed equal to */
-  SendReq R; SendReq *sr = &R;
-  havoc_write_ghosts();
-  __CPROVER_assume(DS_PRE_COND(self, sr, s));
-  Session s0 = *s; TcpEngine E0 = E; SendReq R0 = R;
-  unsigned c0 = G_close_calls, sc0 = G_send_calls, ss0 = G_sslw_calls, m0 = G_ep_mods; size_t w0 = G_written;
-  TcpEngine_doSend(self, sr);
-  IORA_CANARY("h_doSend: returns");
+  Session s0 = *s0p; TcpEngine E0 = *E0p; SendReq R0 = *R0p;
   if (!E0._sessions.has || s0.closed)
   {
     __CPROVER_assert(G_written == w0 && G_send_calls == sc0 && G_sslw_calls == ss0 && G_close_calls == c0 && G_ep_mods == m0,
@@ -127,7 +124,7 @@ void h_doSend(void)
     __CPROVER_assert(!E0._sessions.has || (s->closed && s->wq.n == s0.wq.n && s->wq.front.lo == s0.wq.front.lo && s->wq.front.hi == s0.wq.front.hi && s->wq.end == s0.wq.end
                                            && s->wantWrite == s0.wantWrite && SESSION_FRAME_OK(s, s0)), "D0 closed session: untouched");
     __CPROVER_assert(self->_sessions.has == E0._sessions.has, "D0 table unchanged");
-    IORA_CANARY("h_doSend: no open session");
+    IORA_CANARY("doSend: no open session");
   }
   else if (G_close_calls == c0)
   {
@@ -140,7 +137,7 @@ void h_doSend(void)
                      "S5 still open => the queue is within max(maxWriteQueue, 1) (a payload that was tried on the empty queue is always kept; the TLS handshake parks everything)");
     __CPROVER_assert(s->wq.n <= s0.wq.n + 1, "S5b at most this one buffer is added");
     __CPROVER_assert(SESSION_FRAME_OK(s, s0), "FR session fields outside the write state are unchanged");
-    if (s->wq.n > 0) { IORA_CANARY("h_doSend: queued"); } else { IORA_CANARY("h_doSend: written completely"); }
+    if (s->wq.n > 0) { IORA_CANARY("doSend: queued"); } else { IORA_CANARY("doSend: written completely"); }
   }
   else
   {
@@ -148,13 +145,29 @@ void h_doSend(void)
     __CPROVER_assert(G_close_why == TransportError_Socket || G_close_why == TransportError_TLSIO || G_close_why == TransportError_WriteBackpressure, "SC close reason");
     __CPROVER_assert(G_close_why != TransportError_WriteBackpressure || (E0._config.closeOnBackpressure && s0.wq.n >= E0._config.maxWriteQueue && G_written == w0),
                      "S5c a backpressure close happens only over the limit and under the close policy");
-    IORA_CANARY("h_doSend: closed");
+    IORA_CANARY("doSend: closed");
   }
   __CPROVER_assert(G_written >= w0 && (G_written == w0 || G_written <= R0.payload.hi), "SP what reached the kernel is a prefix of the accepted stream");
   __CPROVER_assert(G_written == w0 || (E0._sessions.has && !s0.closed && s0.wq.n == 0 && w0 == R0.payload.lo), "SP2 a direct write happens only when nothing older is queued");
   __CPROVER_assert(self->_atomicStats.bytesOut - E0._atomicStats.bytesOut == G_written - w0, "SB bytesOut counts exactly the bytes handed over");
   __CPROVER_assert(!E0._sessions.has || (s0.tlsMode == TlsMode_None ? G_sslw_calls == ss0 : G_send_calls == sc0), "W6 plain TCP never calls SSL_write, TLS never calls send (no clear text)");
   __CPROVER_assert(ENGINE_FRAME_OK(self, E0), "FR engine state outside bytesOut/backpressureCloses/_sessions is unchanged");
+}
+
+void h_doSend(void)
+{
+  TcpEngine E; TcpEngine *self = &E;
+  Session *s = malloc(sizeof(Session)); __CPROVER_assume(s != NULL);
+  iora_canon_session(s); iora_canon_engine(self);
+  self->_sessions.val = s;
+  SendReq R; SendReq *sr = &R;
+  havoc_write_ghosts();
+  __CPROVER_assume(DS_PRE_COND(self, sr, s));
+  Session s0 = *s; TcpEngine E0 = E; SendReq R0 = R;
+  unsigned c0 = G_close_calls, sc0 = G_send_calls, ss0 = G_sslw_calls, m0 = G_ep_mods; size_t w0 = G_written;
+  TcpEngine_doSend(self, sr);
+  IORA_CANARY("h_doSend: returns");
+  ds_post(self, s, &s0, &E0, &R0, c0, sc0, ss0, m0, w0);
 }
 
 /* DFCC form (frame by the tool). The session object is reached through the table. */
@@ -174,3 +187,36 @@ __CPROVER_assigns(DS_S->wq, DS_S->wantWrite, DS_S->lastActivity, DS_S->lastWrite
 /* SP */ __CPROVER_ensures(G_written >= OLD(G_written) && G_written <= OLD(sr->payload.hi))
 ;
 void h_doSend_dfcc(void) { TcpEngine *self; SendReq *sr; TcpEngine_doSend(self, sr); IORA_CANARY("h_doSend_dfcc: returns"); }
+
+#ifdef IORA_SEARCH
+/* SEARCH: the same functions and the same clauses on a small CONCRETE scenario (bounded; only used to obtain an input for REPLAY).
+ *   OP 0 = writePending, 1 = doSend;  MODE 0 = plain TCP, 1 = TLS established, 2 = TLS handshake
+ *   NQ queued buffers of Q0,Q1,Q2 bytes, payload of PAY bytes, maxWriteQueue MAXQ, closeOnBackpressure CLOSEBP
+ *   SCR: one byte per environment call (send / SSL_write): 0xFF = would block, 0xFE = fatal error, k = accept min(k, len) bytes */
+void h_search(void)
+{
+  uint8_t SCR[8]; IORA_NONDET_BYTES(SCR, 8);
+  size_t OP = nondet_size_t(), MODE = nondet_size_t(), NQ = nondet_size_t(), Q0 = nondet_size_t(), Q1 = nondet_size_t(), Q2 = nondet_size_t();
+  size_t PAY = nondet_size_t(), MAXQ = nondet_size_t(), CLOSEBP = nondet_size_t();
+  __CPROVER_assume(OP <= 1 && MODE <= 2 && NQ <= 3 && Q0 >= 1 && Q0 <= 4 && Q1 >= 1 && Q1 <= 4 && Q2 >= 1 && Q2 <= 4 && PAY >= 1 && PAY <= 4 && MAXQ <= 4 && CLOSEBP <= 1);
+  __CPROVER_assume(OP == 1 || MODE != 2);           /* writePending never runs during the handshake */
+  for (unsigned i = 0; i < 8; i++) IORA_ENV_SCRIPT[i] = SCR[i];
+  IORA_ENV_i = 0; IORA_SQ_i = 0; IORA_TRUE = 1;
+  TcpEngine E = {0}; TcpEngine *self = &E;
+  Session *s = malloc(sizeof(Session)); __CPROVER_assume(s != NULL);
+  Session z = {0}; *s = z;
+  s->id = 7; s->fd = 1000; iora_sessmap_GKEY = 7; self->_sessions.has = 1; self->_sessions.val = s; self->_epollFd = 5;
+  s->tlsMode = MODE == 0 ? TlsMode_None : TlsMode_Client; s->tlsState = MODE == 0 ? TlsState_None : (MODE == 1 ? TlsState_Open : TlsState_Handshake);
+  s->ssl = MODE == 0 ? NULL : (SSL *)s;            /* any non-null pointer: the stubs never look inside */
+  self->_config.maxWriteQueue = MAXQ; self->_config.closeOnBackpressure = CLOSEBP != 0; self->_config.useEdgeTriggered = 1;
+  size_t total = (NQ > 0 ? Q0 : 0) + (NQ > 1 ? Q1 : 0) + (NQ > 2 ? Q2 : 0);
+  G_written = 0; s->wq.n = NQ; s->wq.front.lo = 0; s->wq.front.hi = NQ > 0 ? Q0 : 0; s->wq.end = total; IORA_SQ_B[0] = Q0 + Q1;
+  s->wantWrite = NQ > 0;
+  SendReq R; R.sid = 7; R.payload.lo = total; R.payload.hi = total + PAY; SendReq *sr = &R;
+  G_A = total;
+  Session s0 = *s; TcpEngine E0 = E; SendReq R0 = R;
+  unsigned c0 = G_close_calls, sc0 = G_send_calls, ss0 = G_sslw_calls, m0 = G_ep_mods; size_t w0 = G_written;
+  if (OP == 0) { TcpEngine_writePending(self, s); wp_post(self, s, &s0, &E0, c0, sc0, ss0, w0); }
+  else { TcpEngine_doSend(self, sr); ds_post(self, s, &s0, &E0, &R0, c0, sc0, ss0, m0, w0); }
+}
+#endif
